@@ -286,7 +286,7 @@ int main(int argc, char **argv) {
   bsx::Report R;
   R.property = "C13"; R.part = "hist"; R.tier = a.tier;
   bool thorough = a.tier == "thorough";
-  int depth = thorough ? 4 : 3;
+  int depth = thorough ? 7 : 5;
   R.rule = "explicit-state BFS over op histories (Process(v,w)/Normalize/Clear) of the real HistogramNew per (min,max,nbins,periodic) "
            "config: depth-1 over the full value alphabet (bin centres, edges exact/+-1ulp/+-1e-6 step, min-k*range, max+k*range, "
            "+-1e19 step, +-1e300, +-DBL_MAX) x weights {1,0.5,-2}; depth<=" + std::to_string(depth) +
